@@ -507,4 +507,200 @@ theorem serve_closes_on_bad_length (ids : List Ident) (f : Frame) (rest : List F
   · have : decide (f.len > maxAgentBytes) = true := by simpa using h
     simp [this]
 
+/-! ## 5. wire codecs: what the client encodes is what the server decodes -/
+
+theorem putU32_length (n : Nat) : (putU32 n).length = 4 := by
+  simp [putU32, natToBE, natToLE_length]
+
+theorem getU32_putU32 (n : Nat) (rest : Bytes) (h : n < 2 ^ 32) : getU32 (putU32 n ++ rest) = some (n, rest) := by
+  have hl := putU32_length n
+  have h1 : (putU32 n ++ rest).take 4 = putU32 n := by
+    rw [List.take_append_of_le_length (by omega), ← hl, List.take_length]
+  have h2 : (putU32 n ++ rest).drop 4 = rest := by
+    rw [← hl, List.drop_left]
+  have h3 : natOfBE (putU32 n) = n := by
+    simp only [natOfBE, putU32, natToBE, List.reverse_reverse, natOfLE_natToLE]
+    exact Nat.mod_eq_of_lt (by simpa using h)
+  unfold getU32
+  have : ¬ (putU32 n ++ rest).length < 4 := by simp [hl]
+  simp only [this, if_false, h1, h2, h3]
+
+theorem getStr_putStr (b rest : Bytes) (h : b.length < 2 ^ 32) : getStr (putStr b ++ rest) = some (b, rest) := by
+  unfold getStr putStr
+  rw [List.append_assoc, getU32_putU32 _ _ h]
+  have : ¬ (b ++ rest).length < b.length := by simp
+  simp only [this, if_false, List.take_left, List.drop_left]
+
+/-- a blob the server accepts as a `wireKey` (it starts with a length-prefixed format string) -/
+def WellFormedBlob (blob : Bytes) : Prop := blob.length < 2 ^ 32 ∧ ∃ f rest, getStr blob = some (f, rest)
+
+theorem mapRes_decSimple (res : Res) (h : res = .ok ∨ res = .err) : decSimple (mapRes res) = res := by
+  rcases h with rfl | rfl <;> rfl
+
+theorem remove_res (r : KR) (b : Bytes) : (r.remove b).2 = .ok ∨ (r.remove b).2 = .err := by
+  simp only [KR.remove]; (repeat' split) <;> simp
+
+theorem lock_res (r : KR) (pw : Bytes) : (r.lock pw).2 = .ok ∨ (r.lock pw).2 = .err := by
+  simp only [KR.lock]; split <;> simp
+
+theorem unlock_res (r : KR) (pw : Bytes) : (r.unlock pw).2 = .ok ∨ (r.unlock pw).2 = .err := by
+  simp only [KR.unlock]; (repeat' split) <;> simp
+
+/-- Remove through `client.Remove` → `ServeAgent` is exactly `keyring.Remove` -/
+theorem wire_remove (ids : List Ident) (r : KR) (now : Int) (blob : Bytes) (hb : WellFormedBlob blob) :
+    wireStep ids r now (.remove blob) = r.remove blob := by
+  obtain ⟨hlen, f, rest, hf⟩ := hb
+  have hg := getStr_putStr blob [] hlen
+  simp only [List.append_nil] at hg
+  simp only [wireStep, COp.request, encRemove, processRequest, hg, hf, COp.decode]
+  have := mapRes_decSimple _ (remove_res r blob)
+  simp only [show ((18 : UInt8) == 1) = false by decide, show ((18 : UInt8) == 9) = false by decide,
+    beq_self_eq_true, if_true, Bool.false_eq_true, if_false]
+  rw [this]
+
+/-- Lock / Unlock through the wire are exactly `keyring.Lock` / `keyring.Unlock` -/
+theorem wire_lock (ids : List Ident) (r : KR) (now : Int) (pw : Bytes) (h : pw.length < 2 ^ 32) :
+    wireStep ids r now (.lock pw) = r.lock pw := by
+  have hg := getStr_putStr pw [] h
+  simp only [List.append_nil] at hg
+  simp only [wireStep, COp.request, encLock, processRequest, hg, COp.decode]
+  have := mapRes_decSimple _ (lock_res r pw)
+  simp only [show ((22 : UInt8) == 1) = false by decide, show ((22 : UInt8) == 9) = false by decide,
+    show ((22 : UInt8) == 18) = false by decide, show ((22 : UInt8) == 19) = false by decide,
+    beq_self_eq_true, if_true, Bool.false_eq_true, if_false]
+  rw [this]
+
+theorem wire_unlock (ids : List Ident) (r : KR) (now : Int) (pw : Bytes) (h : pw.length < 2 ^ 32) :
+    wireStep ids r now (.unlock pw) = r.unlock pw := by
+  have hg := getStr_putStr pw [] h
+  simp only [List.append_nil] at hg
+  simp only [wireStep, COp.request, encUnlock, processRequest, hg, COp.decode]
+  have := mapRes_decSimple _ (unlock_res r pw)
+  simp only [show ((23 : UInt8) == 1) = false by decide, show ((23 : UInt8) == 9) = false by decide,
+    show ((23 : UInt8) == 18) = false by decide, show ((23 : UInt8) == 19) = false by decide,
+    show ((23 : UInt8) == 22) = false by decide,
+    beq_self_eq_true, if_true, Bool.false_eq_true, if_false]
+  rw [this]
+
+theorem sign_res (r : KR) (now : Int) (b : Bytes) (f : Nat) :
+    (r.sign now b f).2 = .err ∨ ∃ b' fmt, (r.sign now b f).2 = .sig b' fmt := by
+  obtain ⟨ks, hks⟩ := expire_no_panic now r.keys
+  simp only [KR.sign, hks]; (repeat' split) <;> simp
+
+/-- Sign through the wire (request: blob, data, flags) is exactly `keyring.SignWithFlags` -/
+theorem wire_sign (ids : List Ident) (r : KR) (now : Int) (blob data : Bytes) (flags : Nat)
+    (hb : WellFormedBlob blob) (hd : data.length < 2 ^ 32) (hfl : flags < 2 ^ 32) :
+    wireStep ids r now (.sign blob data flags) = r.sign now blob flags := by
+  obtain ⟨hlen, f, rest, hf⟩ := hb
+  have h1 := getStr_putStr blob (putStr data ++ putU32 flags) hlen
+  have h2 := getStr_putStr data (putU32 flags) hd
+  have h3 := getU32_putU32 flags [] hfl
+  simp only [List.append_nil] at h3
+  simp only [wireStep, COp.request, encSign, processRequest, h1, h2, h3, hf, COp.decode]
+  simp only [show ((13 : UInt8) == 1) = false by decide, show ((13 : UInt8) == 9) = false by decide,
+    show ((13 : UInt8) == 18) = false by decide, show ((13 : UInt8) == 19) = false by decide,
+    show ((13 : UInt8) == 22) = false by decide, show ((13 : UInt8) == 23) = false by decide,
+    beq_self_eq_true, if_true, Bool.false_eq_true, if_false]
+  rcases sign_res r now blob flags with h | ⟨b', fmt, h⟩
+  · rw [Prod.ext_iff]; simp [h, mapRes, decSign]
+  · rw [Prod.ext_iff]; simp [h, mapRes, decSign]
+
+/-! `parseConstraints` inverts the client's constraint encoder -/
+
+theorem pc_nil (f life : Nat) (conf : Bool) (n : Nat) :
+    parseConstraints (f + 1) [] life conf n = some (life, conf, n) := by simp [parseConstraints]
+
+theorem pc_conf (f : Nat) (t : Bytes) (life : Nat) (conf : Bool) (n : Nat) :
+    parseConstraints (f + 1) (2 :: t) life conf n = parseConstraints f t life true n := by
+  simp only [parseConstraints, show ((2 : UInt8) == 1) = false by decide, beq_self_eq_true, if_true,
+    Bool.false_eq_true, if_false]
+
+theorem pc_life (f : Nat) (t : Bytes) (L life : Nat) (conf : Bool) (n : Nat) (hL : L < 2 ^ 32) :
+    parseConstraints (f + 1) (1 :: (putU32 L ++ t)) life conf n = parseConstraints f t L conf n := by
+  have hl := putU32_length L
+  have h5 : ¬ ((1 : UInt8) :: (putU32 L ++ t)).length < 5 := by simp [hl]
+  have hd : ((1 : UInt8) :: (putU32 L ++ t)).drop 5 = t := by
+    rw [show (5 : Nat) = 4 + 1 by rfl, List.drop_succ_cons, ← hl, List.drop_left]
+  have ht : ((((1 : UInt8) :: (putU32 L ++ t)).drop 1).take 4) = putU32 L := by
+    rw [List.drop_succ_cons, List.drop_zero, List.take_append_of_le_length (by omega), ← hl, List.take_length]
+  have hn : natOfBE (putU32 L) = L := by
+    simp only [natOfBE, putU32, natToBE, List.reverse_reverse, natOfLE_natToLE]
+    exact Nat.mod_eq_of_lt (by simpa using hL)
+  rw [parseConstraints]
+  simp only [beq_self_eq_true, if_true, h5, if_false, hd, ht, hn]
+
+theorem pc_ext (f : Nat) (e : Bytes × Bytes) (t : Bytes) (life : Nat) (conf : Bool) (n : Nat)
+    (he : e.1.length < 2 ^ 32 ∧ e.2.length < 2 ^ 32) :
+    parseConstraints (f + 1) (encExt e ++ t) life conf n = parseConstraints f t life conf (n + 1) := by
+  have h1 := getStr_putStr e.1 (putStr e.2 ++ t) he.1
+  have h2 := getStr_putStr e.2 t he.2
+  simp only [encExt, List.cons_append, List.append_assoc, parseConstraints,
+    show ((255 : UInt8) == 1) = false by decide, show ((255 : UInt8) == 2) = false by decide,
+    beq_self_eq_true, Bool.true_or, if_true, Bool.false_eq_true, if_false, h1, h2]
+
+theorem pc_exts (exts : List (Bytes × Bytes)) (life : Nat) (conf : Bool) (n f : Nat)
+    (hx : ∀ e ∈ exts, e.1.length < 2 ^ 32 ∧ e.2.length < 2 ^ 32) :
+    parseConstraints (exts.length + f + 1) (encExts exts) life conf n = some (life, conf, n + exts.length) := by
+  induction exts generalizing n with
+  | nil => simp [encExts, pc_nil]
+  | cons e es ih =>
+    have : (e :: es).length + f + 1 = (es.length + f + 1) + 1 := by simp only [List.length_cons]; omega
+    rw [this, encExts, pc_ext _ _ _ _ _ _ (hx e (by simp)),
+      ih (n + 1) (fun x hx' => hx x (List.mem_cons_of_mem _ hx'))]
+    rw [List.length_cons, show n + 1 + es.length = n + (es.length + 1) by omega]
+
+theorem encExts_length (exts : List (Bytes × Bytes)) : exts.length ≤ (encExts exts).length := by
+  induction exts with
+  | nil => simp [encExts]
+  | cons e es ih => simp only [encExts, encExt, List.length_append, List.length_cons]; omega
+
+/-- number of constraint items the client emits -/
+def nItems (life : Nat) (conf : Bool) (exts : List (Bytes × Bytes)) : Nat :=
+  (if life != 0 then 1 else 0) + (if conf then 1 else 0) + exts.length
+
+theorem pc_roundtrip_fuel (life : Nat) (conf : Bool) (exts : List (Bytes × Bytes)) (hl : life < 2 ^ 32)
+    (hx : ∀ e ∈ exts, e.1.length < 2 ^ 32 ∧ e.2.length < 2 ^ 32) (f : Nat) :
+    parseConstraints (nItems life conf exts + f + 1) (encConstraints life conf exts) 0 false 0 =
+      some (life, conf, exts.length) := by
+  unfold encConstraints nItems
+  by_cases hlz : life = 0
+  · subst hlz
+    cases conf
+    · have := pc_exts exts 0 false 0 f hx
+      simpa using this
+    · have := pc_exts exts 0 true 0 f hx
+      simp only [bne_self_eq_false, Bool.false_eq_true, if_false, if_true, List.nil_append, List.cons_append]
+      rw [show 0 + 1 + exts.length + f + 1 = (exts.length + f + 1) + 1 by omega, pc_conf]
+      simpa using this
+  · have hb : (life != 0) = true := by simpa using hlz
+    cases conf
+    · have := pc_exts exts life false 0 f hx
+      simp only [hb, if_true, Bool.false_eq_true, if_false, List.nil_append, List.cons_append]
+      rw [show 1 + 0 + exts.length + f + 1 = (exts.length + f + 1) + 1 by omega, pc_life _ _ _ _ _ _ hl]
+      simpa using this
+    · have := pc_exts exts life true 0 f hx
+      simp only [hb, if_true, List.cons_append, List.nil_append]
+      rw [show 1 + 1 + exts.length + f + 1 = ((exts.length + f + 1) + 1) + 1 by omega,
+        pc_life _ _ _ _ _ _ hl, pc_conf]
+      simpa using this
+
+theorem nItems_le_length (life : Nat) (conf : Bool) (exts : List (Bytes × Bytes)) :
+    nItems life conf exts ≤ (encConstraints life conf exts).length := by
+  have := encExts_length exts
+  unfold nItems encConstraints
+  simp only [List.length_append]
+  cases (life != 0) <;> cases conf <;> simp [putU32_length] <;> omega
+
+/-- **constraints_roundtrip**: with the fuel the server uses (`len + 1`), parsing what the client encoded
+    gives back the lifetime (0 = none), the confirm flag and the number of extensions -/
+theorem constraints_roundtrip (life : Nat) (conf : Bool) (exts : List (Bytes × Bytes)) (hl : life < 2 ^ 32)
+    (hx : ∀ e ∈ exts, e.1.length < 2 ^ 32 ∧ e.2.length < 2 ^ 32) :
+    parseConstraints ((encConstraints life conf exts).length + 1) (encConstraints life conf exts) 0 false 0 =
+      some (life, conf, exts.length) := by
+  have hle := nItems_le_length life conf exts
+  obtain ⟨f, hf⟩ : ∃ f, (encConstraints life conf exts).length + 1 = nItems life conf exts + f + 1 :=
+    ⟨(encConstraints life conf exts).length - nItems life conf exts, by omega⟩
+  rw [hf]
+  exact pc_roundtrip_fuel life conf exts hl hx f
+
 end XC.C43
